@@ -364,9 +364,9 @@ def run(ctx):
     d_lines = [l for l in corpus if l.startswith("hist tj ")]
     i_lines = [l for l in corpus if l.startswith("hist ijg ")]
     ncd, nci = len(d_lines), len(i_lines)
-    for _ in range(ctx.n(2500, 40000)):
+    for _ in range(ctx.n(2500, 30000)):
         d_lines.append(gen_history(rng, "tj", rng.range(1, 5), d_call_maker))
-    for _ in range(ctx.n(600, 8000)):
+    for _ in range(ctx.n(600, 6000)):
         i_lines.append(gen_history(rng, "ijg", rng.range(1, 4), i_call_maker))
     t_lines = []
     nct = 0
@@ -379,7 +379,7 @@ def run(ctx):
                     return "J %s %d %s" % (m.group(1), n, spec_str(s))
                 t_lines.append("hist tjx " + re.sub(r"J (\d) #(\d+)", sub, l[6:]))
         nct = len(t_lines)
-        for _ in range(ctx.n(900, 12000)):
+        for _ in range(ctx.n(900, 10000)):
             t_lines.append(gen_history(rng, "tjx", rng.range(1, 4), t_call_maker))
     nd = run_stream(ctx, "D", d_lines, drv, exes, 3, ncorpus=ncd)
     ni = run_stream(ctx, "I", i_lines, drv, exes, 3, ncorpus=nci)
